@@ -83,7 +83,7 @@ def gen_config(rng, tier, index=0):
         "depth": rng.choice([0, 1, 3, 6, 12, 25, 60, 120]),
         "fix_homozygous": rng.choice([0.51, 0.6, 0.9, 0.99, 0.999, 0.999, 0.999999, 1.0, 1.0, 1.1, 0.3, 0.45]),
         "inbreeding": rng.choice([0.0, 0.0, 0.1, 0.5]),
-        "counts": rng.choice(["none", "ints"]),
+        "counts": rng.choice(["none", "ints", "skewed"]),
         "data_seed": rng.randrange(2 ** 31),
         "steps": rng.randint(1, 4),
         "chains": rng.choice([1, 2]),
@@ -248,6 +248,20 @@ def gen_fix_reads(cfg):
             reads[r, j, : n_alleles[j]] = (1 - p) / 3
             reads[r, j, a] = p
     counts = None
+    if cfg["counts"] == "skewed" and n_pos:
+        # two distinct reads seen 30 times each carry the truth, three distinct reads seen once each carry another allele at the
+        # homozygous sites: the weighted evidence is overwhelming for the truth, the unweighted mean of distinct reads is not
+        reads = np.zeros((5, n_pos, amax))
+        for r in range(5):
+            hap = truth[r % pl]
+            for j in range(n_pos):
+                a = hap[j]
+                if r >= 2 and cfg["hom_cols"][j]:
+                    a = (a + 1) % n_alleles[j]
+                p = 0.99 if r % 2 else 0.999
+                reads[r, j, : n_alleles[j]] = (1 - p) / 3
+                reads[r, j, a] = p
+        return reads, np.array([30, 30, 1, 1, 1], dtype=np.int64)
     if cfg["counts"] == "ints" and depth > 0:
         counts = np.array([rng.choice([1, 2, 4]) for _ in range(depth)], dtype=np.int64)
     return reads, counts
